@@ -24,8 +24,8 @@ TECHNIQUE = "per-cycle BFS closure of transmitter x line monitor; unconstrained 
 def configs(tier):
     out = []
     if tier == "quick":
-        out.append(dict(kind="single", divisor=2, alphabet="all"))
-        for d in (1, 3, 5, 8):
+        out.append(dict(kind="single", divisor=1, alphabet="all"))      # all 256 byte values (divisor 2 and 3 too in thorough)
+        for d in (2, 3, 5, 8):
             out.append(dict(kind="single", divisor=d, alphabet="few"))
         out.append(dict(kind="multi", byte_width=2, divisor=1))
         out.append(dict(kind="multi", byte_width=2, divisor=3))
@@ -68,6 +68,8 @@ class UartSpec(Spec):
         self._acts = [(0, 0)] + [(1, v) for v in vals] + [(0, vals[-1])]
         self.time_budget = 150 if tier == "quick" else 850      # safety net only; sized to finish in seconds
         self.max_states = 400_000 if tier == "quick" else 3_000_000
+        if tier == "quick" and cfg.get("alphabet") == "all":
+            self.max_states = 8_000       # 2819 on a correct design; 258 actions per state, so keep broken designs from running long
 
     def build(self):
         from luna.gateware.interface.uart import UARTTransmitter, UARTMultibyteTransmitter
